@@ -518,6 +518,7 @@ func (p *prop) genE2E(rng *core.Rand) string {
 }
 
 var malformed = []string{
+	"cf2", "cf2 Z", "cf2 q r", "cf2 ~",
 	"cf", "cf n", "cf n 2", "cf n 2/", "cf n 6/q", "cf n 2/q;2/r", "cf z 2/q", "cf n 2/Z", "cf n 2/q;", "cf n 2/q 1", "cf n 2/~q",
 	"ca", "ca 1", "ca 00000000", "ca 0100000", "ca 2000000", "ca 1300000", "ca 1030000", "ca 1000006", "ca 100000x", "ca 1000000 1",
 	"e2e", "e2e 0 f 2d 2d", "e2e 0 p1 7075626c69632e74657374", "e2e 1 p2 7075626c69632e74657374 2d", "e2e 0 p1 3132372e302e302e31 2d", "e2e 2 p1 612e 2d",
@@ -610,6 +611,10 @@ func (p *prop) Generate(rng *core.Rand, tier string, emit func(string)) {
 	r3 := rng.Fork()
 	for _, m := range malformed {
 		emit(m)
+	}
+	// one site block on two ports: every single subdirective and a few combinations, every run
+	for _, sub := range []string{".", "r", "q", "g", "R", "k", "f", "l", "j", "p", "v", "x", "K", "F", "qk", "vr", "pq", "lq", "kp"} {
+		emit("cf2 " + sub)
 	}
 	// client_authentication field by field: EVERY combination, every run
 	emit("ca 0000000")
